@@ -36,6 +36,8 @@ type Enum struct {
 	inCalib    bool
 	Unreachable []string
 	Policy     func(k int, n uint32) uint32 // index for draws beyond the plan (nil: 0)
+	MaxDraws   int                          // >0: abandon a run after this many draws
+	MaxProd    float64                      // >0: abandon a run once the product of its bounds exceeds this (its mass is below 1/MaxProd)
 }
 
 func NewEnum(seed int64) *Enum {
@@ -144,7 +146,10 @@ func minU32(a, b uint32) uint32 {
 	return b
 }
 
+type cutSignal struct{}
+
 type RunOut struct {
+	Cut         bool // abandoned: the run went deeper than MaxProd allows (e.g. an unbounded redraw loop)
 	Draws       []Draw
 	Tape        *Tape
 	Panic       interface{}
@@ -163,9 +168,14 @@ func (e *Enum) Run(plan []uint32, body func()) (out RunOut) {
 		return e.Rng.Uint32(), true
 	}
 	k := 0
+	prod := 1.0
 	spg.VerifSetDrawHook(func(n uint32) {
 		if e.inCalib {
 			return
+		}
+		prod *= float64(n)
+		if (e.MaxProd > 0 && prod > e.MaxProd) || (e.MaxDraws > 0 && k >= e.MaxDraws) {
+			panic(cutSignal{})
 		}
 		var idx uint32
 		if k < len(plan) {
@@ -201,7 +211,11 @@ func (e *Enum) Run(plan []uint32, body func()) (out RunOut) {
 	func() {
 		defer func() {
 			if r := recover(); r != nil {
-				out.Panic = r
+				if _, ok := r.(cutSignal); ok {
+					out.Cut = true
+				} else {
+					out.Panic = r
+				}
 			}
 		}()
 		body()
